@@ -40,6 +40,11 @@ type Periodic struct {
 	access  sync.Mutex
 	timer   *time.Timer
 	running bool
+
+	// delayed is the pending WaitThenStart (nil when there is none) and
+	// delayedSeq tells it apart from earlier ones; Close cancels it.
+	delayed    *time.Timer
+	delayedSeq uint64
 }
 
 func (t *Periodic) hasClosed() bool {
@@ -77,7 +82,21 @@ func (t *Periodic) checkedExecute() error {
 
 // Start implements common.Runnable.
 func (t *Periodic) Start() error {
+	return t.start(0)
+}
+
+// start runs the task unless it is running already. A delayed start
+// (WaitThenStart) passes its sequence number and does nothing when Close has
+// cancelled it in the meantime.
+func (t *Periodic) start(delayedSeq uint64) error {
 	t.access.Lock()
+	if delayedSeq != 0 {
+		if t.delayed == nil || t.delayedSeq != delayedSeq {
+			t.access.Unlock()
+			return nil
+		}
+		t.delayed = nil
+	}
 	if t.running {
 		t.access.Unlock()
 		return nil
@@ -96,8 +115,16 @@ func (t *Periodic) Start() error {
 }
 
 func (t *Periodic) WaitThenStart() {
-	time.AfterFunc(t.Interval, func() {
-		t.Start()
+	t.access.Lock()
+	defer t.access.Unlock()
+
+	if t.delayed != nil {
+		return
+	}
+	t.delayedSeq++
+	seq := t.delayedSeq
+	t.delayed = time.AfterFunc(t.Interval, func() {
+		t.start(seq)
 	})
 }
 
@@ -110,6 +137,10 @@ func (t *Periodic) Close() error {
 	if t.timer != nil {
 		t.timer.Stop()
 		t.timer = nil
+	}
+	if t.delayed != nil {
+		t.delayed.Stop()
+		t.delayed = nil
 	}
 
 	return nil
